@@ -5,7 +5,7 @@ import json, subprocess
 CLAIMED = {
  "C03": dict(level="exploration", design="4/C03",
    technique="deterministic simulation of UCI sessions (simulated GUI playing games, virtual clock with per-run cost model, stall jumps, forced expiry at the first clock reads, seeded key draws, stale tables across games); oracle = independent rules-of-chess model",
-   text="Seeded search over session histories and clock schedules: each sim is one engine process lifetime of 1-4 games; every go (depth, movetime incl. 0, clocks in four regimes) must be answered by exactly one legal bestmove, 0000 iff no legal move, without a crash. The schedule dimension (where the budget expires) is sampled by the cost model, the zero-budget corner is pinned by forced expiry.",
+   text="Seeded search over session histories and clock schedules: each sim is one engine process lifetime of 1-4 games; every go (depth, movetime incl. 0, clocks in four regimes) must be answered by exactly one bestmove, legal per the rules model and never 0000 while a legal move exists, without a crash; earlier games of the process are taken up again with and without ucinewgame. The schedule dimension (where the budget expires) is sampled by the cost model, the zero-budget corner is pinned by forced expiry.",
    note="Sampled sessions; legality judged by rules model R (perft-validated); depth-limited searches hitting the step cap are inconclusive."),
  "C04": dict(level="exploration", design="4/C04",
    technique="deterministic simulation of UCI sessions, step-driven: histories of position commands compared field by field with an independent rules-of-chess model after every command; engine crash = violation; 5% re-run through the real uci_loop",
@@ -21,30 +21,30 @@ CLAIMED = {
    note="Exhaustive only in the crash-point dimension and only per sampled position; depth <= 3 (where the reference is unambiguous)."),
  "C07": dict(level="fault_enumeration", design="4/C07",
    technique="deterministic simulation with a virtual clock: forced expiry at enumerated clock reads and node-indexed deadlines (cost model), stall jumps, explosive-quiescence positions; poll-gap witness runs; oracle = nodes entered after the deadline <= 4096 (step cap at 64x)",
-   text="Per position the deadline is placed at every early clock read, at log-spaced later reads and at seeded node counts; after the virtual deadline at most B=4096 nodes may be entered, in World S and through go movetime in the real uci_loop. A clock-limited search that stops reading the clock is cut and judged by a witness run with the deadline inside the gap.",
+   text="Per position (ordinary, explosive-quiescence, single-legal-move) the deadline is placed at every early clock read, at log-spaced later reads, shortly before the end of each iteration and at seeded node counts, on fresh engines and after earlier (optionally clock-limited) searches on the same engine; after the virtual deadline at most B=4096 nodes may be entered, in World S and through go movetime in the real uci_loop. A clock-limited search that stops reading the clock is cut and judged by a witness run with the deadline inside the gap.",
    note="'Promptly' is taken as <= 4096 nodes (current code: 2); time bound asserted only without stall jumps."),
  "C09": dict(level="exploration", design="4/C09",
    technique="deterministic simulation of UCI sessions, step-driven: game histories with planted repetitions; per-successor repetition query and depth-1 search compared with a reference that knows the game-history rule (occurrences counted by the independent rules model)",
    text="Seeded histories (shuffle cycles, look-alike positions with other rights, several position commands in a row); for every legal successor the engine's repetition verdict must equal 'occurred at least twice before'; the first go depth 1 of a game must report max(0 for repeating moves, -quiescence otherwise).",
    note="Only depth 1 is judged; successors on which the ep-square conventions disagree are skipped and counted."),
  "C11": dict(level="exploration", design="4/C11",
-   technique="randomness seam (simulator-chosen key sets) + histories (game trees reaching positions by many move orders) + single-component neighbours; monitor: canonical position <-> hash bijection per key set",
-   text="Weak claim: a monitor over ~1e6 hashed boards per quick run, one key set per sim; same canonical position must always hash equal (any path, any counters), different canonical positions must hash differently.",
+   technique="randomness seam (simulator-chosen key sets) + histories (game trees reaching positions by many move orders) + single-component neighbours + all pairs of one-feature variants of seeded bases (two-component differences); monitor: canonical position <-> hash bijection per key set",
+   text="Weak claim: a monitor over ~1e7 hashed boards per quick run, one key set per sim; same canonical position must always hash equal (any path, any counters), different canonical positions must hash differently.",
    note="The hash is otherwise a pure function; only key draws and move-order histories are simulation content. Collision probability of honest keys ~1e-10 per run."),
  "C12": dict(level="exploration", design="4/C12",
-   technique="deterministic simulation of a match with two chess clocks in virtual time; budget observed where the real go handler arms the real timer; metamorphic twin go with the opponent's clock replaced and tokens permuted",
-   text="Seeded clock values (0 .. hours, increments up to and beyond the remaining time), both colours, all token orders; armed budget must exist, be <= the mover's remaining time, < when any time remains, and be unchanged by the opponent's values and the token order.",
+   technique="deterministic simulation of a match with two chess clocks in virtual time; budget observed where the real go handler arms the real timer; metamorphic twin go with the opponent's clock replaced and tokens permuted; think time measured on the virtual clock in long-think sims",
+   text="Seeded clock values (0 .. hours, increments up to and beyond the remaining time), both colours, all token orders; armed budget must exist, be <= the mover's remaining time, < when any time remains, and be unchanged by the opponent's values and the token order; in sims that let the engine think for 10^5-10^6 nodes the virtual time from go to bestmove must fit in the mover's remaining time (plus the overrun C07 allows).",
    note="Nothing is asserted about the allocation formula; the oracle's reading of the tokens is 'token followed by value, any order'."),
  "C13": dict(level="exploration", design="4/C13",
    technique="deterministic simulation twin runs: same script under several simulator-chosen key seeds; prefix+ucinewgame+suffix vs fresh process; plus two runs of the real binary (real key draws) compared with the simulation",
-   text="Transcripts (info/bestmove minus time/nps) must be byte-identical across key sets and between 'after ucinewgame' and a fresh process, with adversarial prefixes containing clock-interrupted searches.",
+   text="Transcripts (info/bestmove minus time/nps) must be byte-identical across key sets and between 'after ucinewgame' and a fresh process, with adversarial prefixes containing clock-interrupted searches, suffixes that continue the game of the prefix, and a share of single large searches (several 10^5 nodes) for dependences that need many table probes to show.",
    note="HashMap hasher state is not behind a seam and varies like the keys; scripts are sampled."),
  "C15": dict(level="exploration", design="4/C15",
-   technique="store/retrieve traffic recorded from simulated (interrupted, buggified) searches replayed on a fresh real table next to a reference map, plus synthetic seeded histories with depth ties (model-based sequence testing)",
-   text="Every retrieve of every replayed history must return exactly what the depth-preferred reference map holds for that key (all fields), never an entry of another key.",
-   note="The table is deterministic in its call sequence, so replay equals in-situ observation; the synthetic part is not fault injection."),
+   technique="in-situ audit of the engine's own table after each of several simulated (interrupted, buggified) searches on one engine against depth-preferred replacement over all observed store calls; store/retrieve traffic recorded from such searches replayed on a fresh real table next to a reference map; synthetic seeded histories with depth ties and extreme scores (model-based sequence testing)",
+   text="Every retrieve of every replayed history must return exactly what the depth-preferred reference map holds for that key (all fields), never an entry of another key; after every search of an in-situ session the table content must equal the reference map built from every store call since the engine was created.",
+   note="Replay assumes the table is deterministic in its call sequence; what the engine does to the table between calls (per-search housekeeping) is covered by the in-situ audit; the synthetic part is not fault injection."),
  "C16": dict(level="fault_enumeration", design="4/C16",
-   technique="deterministic simulation of the UCI process (stdin/stdout/exit seams) with end-of-input injected at every byte offset, transient read errors and undecodable lines; oracle = protocol transducer; real-binary fidelity runs",
+   technique="deterministic simulation of the UCI process (stdin/stdout/exit seams) with end-of-input injected at every byte offset, transient read errors, reads interrupted by signals (EINTR) and undecodable lines; oracle = protocol transducer; real-binary fidelity runs",
    text="Every generated script is run once per byte offset at which the input can end (fault enumeration over the crash-point dimension, exhaustive per light script), each as one simulated engine process; output must match the protocol model and the process must terminate with status 0 within 8 reads after end of input. Sampled runs are repeated on the real binary over a real pipe.",
    note="Scripts are sampled; the stubs (reader, sink, exit) are trusted to behave like the OS facilities, checked by the real-binary runs; unknown lines exclude UCI command words."),
 }
